@@ -79,11 +79,12 @@ def run_scenario(sc):
         holder = {}
 
         async def main():
+            nr = NodeRecorder(sim).install()
+            holder['nr'] = nr
             a = await sim.start_host('A', '10.0.0.1')
+            nr.attach(a)
             sim.randoms['mcast_delay'] = list(sc['mcast'])
             sim.randoms['tc_delay'] = list(sc['tcd'])
-            nr = NodeRecorder(sim, a).install()
-            holder['nr'] = nr
             infos = [c03.mk_info(s) for s in sc['svcs']]
             for info in infos:
                 rid, task = nr.register(info, cooperating_responders=True)
